@@ -594,3 +594,16 @@ package datastore
 //@   calls_havoc
 //@   modifies *
 //@   assert at "r.data[name] = dataservice": heldw("r.RWMutex") && !has(r.data, name)
+
+// loadVersion0 (C04: the next start succeeds without manual repair): whatever the persisted id cache
+// holds - including the repo id of a repo whose record never reached the store because the process died
+// inside newRepo - after the reconciliation loop every repo id still cached names a loaded repo, so
+// loadMetadata's "could not find repo" failure cannot occur, also when the store holds no repo at all.
+//@ func repoManager.loadVersion0
+//@   prop C04
+//@   requires m != nil
+//@   safety_off
+//@   calls_havoc
+//@   modifies *
+//@   invariant loop 9: forall id dvid.RepoID :: visited9[id] && has(m.repoToUUID, id) ==> has(m.repos, m.repoToUUID[id]) && m.repos[m.repoToUUID[id]] != nil
+//@   assert at "if saveCache {": forall id dvid.RepoID :: has(m.repoToUUID, id) ==> has(m.repos, m.repoToUUID[id]) && m.repos[m.repoToUUID[id]] != nil
